@@ -1,4 +1,5 @@
 import Dtr.Proofs.StaticSim
+import Dtr.Proofs.StaticSimAfter
 /-!
 # C15 — deterministic and re-runnable; static iteration equals any dynamic run
 
@@ -259,6 +260,22 @@ theorem C15_next_eval_error {δ : Type} (tc : TestCase) (drv : Driver δ) (fuel 
   simp only [h1, GRRel] at hg
   unfold RowIt.next
   rw [hg hn]
+
+/-- **Lock step also behind an evaluation error.**  When the static iterator and a dynamic iterator in lock step meet an
+evaluation error before the driver is called — any error but "unassigned name" —, both return that error item without a
+call, and the states the two are left in (`RowIt.nextC`, `Model/AfterError`: the failing statement skipped, the draws in
+front of the failing sub-expression made) are in lock step again.  So the rows that follow — if the callers go on — are
+again the same, by `C15_next_row`, `C15_next_none` and this theorem. -/
+theorem C15_lock_step_behind_error {δ : Type} (tc : TestCase) (drv : Driver δ) (fuel : Nat) (s₁ s₂ : RowIt) (d : δ)
+    (e : ExprErr) (h : SimS s₁ s₂) (h1 : getRow tc fuel s₁ = .err e) (hn : ∀ n, e ≠ .unassigned n) :
+    RowIt.nextC tc staticDriver fuel s₁ () = .item (.err (.expr e)) (s₁.afterEvalErr fuel) () [] ∧
+    RowIt.nextC tc drv fuel s₂ d = .item (.err (.expr e)) (s₂.afterEvalErr fuel) d [] ∧
+    SimS (s₁.afterEvalErr fuel) (s₂.afterEvalErr fuel) := by
+  have hg := getRow_sim tc fuel h
+  simp only [h1, GRRel] at hg
+  refine ⟨?_, ?_, afterEvalErr_sim tc fuel h e h1 hn⟩
+  · unfold RowIt.nextC; rw [h1]
+  · unfold RowIt.nextC; rw [hg hn]
 
 /-- **A row of the static run**: the dynamic iterator pops the very same evaluated row (so it hands
 the driver the same inputs), and if the driver's answer lets it return a row at all, that row has
